@@ -458,7 +458,7 @@ def generator_rules(rep):
             fm = as_fmt(t) if t is not None else None
             if fm is None or fm.template is None:
                 return lv[0], None, None
-            return lv[0], fm, (tmpl_any(fm.template, f"HandleLift {cls}"))
+            return lv[0], fm, tmpl_expr(fm.template, f"HandleLift {cls}")
 
         def decl_pushes(node):
             return [m for m in synq.method_calls(node, "push") if render(m["recv"]).endswith("handle_decls")]
@@ -538,7 +538,7 @@ def generator_rules(rep):
             a = em.arm(v)
             ps = em.pushed(a.body)
             fm = as_fmt(ps[0]) if len(ps) == 1 else None
-            e = (tmpl_any(fm.template, v)) if fm is not None and fm.template else None
+            e = tmpl_expr(fm.template, v) if fm is not None and fm.template else None
             nm = call_name(e) if e is not None else None
             ok = nm is not None and bool(re.fullmatch(r"__h_\w+__::" + re.escape(ctor), nm)) and \
                 len(e["args"]) >= 1 and operand_hole(em, a.body, fm, e["args"][0]) and \
@@ -741,14 +741,6 @@ def lifts_precede_call(rep):
     rep.ob("R7.2", "abi::call (export): every argument is lifted before the single, unconditional CallInterface", ok,
            f"CallInterface at statement(s) {ci}; {len(late)} lifting call(s) after it", f.loc(a.node))
     return ok
-
-
-def tmpl_any(text, what):
-    ast = parse_template(text, what)
-    st = ast.get("stmts") or []
-    if len(st) != 1 or st[0].get("k") != "expr_stmt":
-        raise AnchorMissing(f"{what}: template is not a single expression")
-    return st[0]["e"]
 
 
 def operand_hole(em, scope, fm, e, deep=False):
